@@ -20,6 +20,15 @@
 //	(ical-rt <secs> <off>)      likewise for caldav.dateWithUTCTime
 //	(ical-dec <text>)
 //
+//	(etag-rt <bytes> (<rune>...))   (<text> (ok <bytes>)|(err)|(panic))    ETag.String then ETag.UnmarshalText; the runes are those
+//	                                                                        above U+00FF in <bytes> that strconv.IsPrint calls printable
+//	(etag-e2e <bytes> (<rune>...))  ((ok <bytes>)|(err)|(none) ...)          the tag through the ETag header of a real HEAD response
+//	                                                                        (read with ConditionalMatch.ETag) and through a real PROPFIND (Client.Stat)
+//	(etag-dec <text>)               (ok <bytes>)|(err)|(panic)              ETag.UnmarshalText
+//	(unquote-dec <text>)            (ok <bytes>)|(err)                      strconv.Unquote itself
+//	(utf8 <bytes>)                  ((<rune> <width>)...)                   utf8.DecodeRuneInString along the string
+//	(utf8-enc <rune>)               <bytes>                                 utf8.AppendRune
+//
 // Stages (-stage): small (Depth, Overwrite, status line), ... ; -replay re-executes
 // the inputs of the given case lines whatever their stage.
 package main
@@ -34,8 +43,10 @@ import (
 	"net/http/httptest"
 	"os"
 	"runtime"
+	"strconv"
 	"sync"
 	"time"
+	"unicode/utf8"
 
 	webdav "github.com/emersion/go-webdav"
 	"github.com/emersion/go-webdav/caldav"
@@ -271,6 +282,92 @@ func civilObs(secs int64) string {
 		hx.I(int64(t.Minute())), hx.I(int64(t.Second())), hx.I(int64(t.Weekday())))
 }
 
+// ---------------------------------------------------------------- entity tags
+
+func strObs(s string, err error) string {
+	if err != nil {
+		return obsErr()
+	}
+	return hx.L("ok", hx.S(s))
+}
+
+func etagDecObs(text string) string {
+	return guard(func() string {
+		var e verifhook.ETag
+		err := e.UnmarshalText([]byte(text))
+		return strObs(string(e), err)
+	})
+}
+
+func etagRT(tag string) string {
+	return guard(func() string {
+		b, err := verifhook.ETag(tag).MarshalText()
+		if err != nil {
+			return obsErr()
+		}
+		if verifhook.ETag(tag).String() != string(b) {
+			return obsErr()
+		}
+		return hx.L(hx.S(string(b)), etagDecObs(string(b)))
+	})
+}
+
+// printableHi lists the runes above U+00FF of s that strconv.IsPrint accepts: the
+// part of the IsPrint table the model takes as a parameter.
+func printableHi(s string) string {
+	seen := map[rune]bool{}
+	var items []string
+	for i := 0; i < len(s); {
+		r, w := utf8.DecodeRuneInString(s[i:])
+		i += w
+		if r > 0xFF && !(r == utf8.RuneError && w == 1) && strconv.IsPrint(r) && !seen[r] {
+			seen[r] = true
+			items = append(items, hx.I(int64(r)))
+		}
+	}
+	return hx.L(items...)
+}
+
+func etagE2E(tag string) string {
+	hdr := guard(func() string {
+		fs := &stubFS{stat: &webdav.FileInfo{Path: "/f", Size: 0, ETag: tag, ModTime: time.Unix(0, 0)}}
+		h := &webdav.Handler{FileSystem: fs}
+		req := httptest.NewRequest("HEAD", "/f", nil)
+		rec := httptest.NewRecorder()
+		h.ServeHTTP(rec, req)
+		v, ok := rec.Result().Header["Etag"]
+		if !ok || len(v) != 1 {
+			return "(none)"
+		}
+		got, err := webdav.ConditionalMatch(v[0]).ETag()
+		return strObs(got, err)
+	})
+	viaXML := guard(func() string {
+		fs := &stubFS{stat: &webdav.FileInfo{Path: "/f", Size: 0, ETag: tag, ModTime: time.Unix(0, 0)}}
+		h := &webdav.Handler{FileSystem: fs}
+		c, err := webdav.NewClient(inProc{h}, "http://example.org/")
+		if err != nil {
+			return obsErr()
+		}
+		fi, err := c.Stat(context.Background(), "/f")
+		if err != nil {
+			return obsErr()
+		}
+		return strObs(fi.ETag, nil)
+	})
+	return hx.L(hdr, viaXML)
+}
+
+func utf8Obs(s string) string {
+	var items []string
+	for i := 0; i < len(s); {
+		r, w := utf8.DecodeRuneInString(s[i:])
+		items = append(items, hx.L(hx.I(int64(r)), hx.I(int64(w))))
+		i += w
+	}
+	return hx.L(items...)
+}
+
 // ---------------------------------------------------------------- dispatch
 
 func exec(in string) string {
@@ -313,6 +410,19 @@ func exec(in string) string {
 		obs = icalRT(a[0].Int(), a[1].Int())
 	case "ical-dec":
 		obs = icalDecObs(a[0].Str())
+	case "etag-rt":
+		obs = etagRT(a[0].Str())
+	case "etag-e2e":
+		obs = etagE2E(a[0].Str())
+	case "etag-dec":
+		obs = etagDecObs(a[0].Str())
+	case "unquote-dec":
+		u, err := strconv.Unquote(a[0].Str())
+		obs = strObs(u, err)
+	case "utf8":
+		obs = utf8Obs(a[0].Str())
+	case "utf8-enc":
+		obs = hx.S(string(utf8.AppendRune(nil, rune(a[0].Int()))))
 	default:
 		panic("harness: unknown case " + in)
 	}
@@ -641,6 +751,154 @@ func genDate(emit func(string), r *hx.Rand, thorough bool) {
 	}
 }
 
+// runes of interest: printable and not, every UTF-8 length, edges of the ranges
+var runePool = []rune{0, 1, 7, 8, 9, 10, 11, 12, 13, 0x1b, 0x1f, ' ', '!', '"', '#', '%', '\'', '/', ':', '?', '\\', '`', 'a', 'z', '~', 0x7f,
+	0x80, 0x85, 0xa0, 0xa1, 0xad, 0xe9, 0xff, 0x100, 0x378, 0x7ff, 0x800, 0x200b, 0x2028, 0x20ac, 0xd7ff, 0xe000, 0xfeff, 0xfffd, 0xfffe, 0xffff,
+	0x10000, 0x1f600, 0xe0001, 0xf0000, 0x10fffd, 0x10ffff}
+
+// broken UTF-8: lone continuation, truncated sequences, overlong forms, surrogates, beyond U+10FFFF
+var brokenUTF8 = []string{"\x80", "\xbf", "\xc0\x80", "\xc1\xbf", "\xc2", "\xc3", "\xe0\x80\x80", "\xe0\x9f\xbf", "\xe2\x82", "\xe2", "\xed\xa0\x80", "\xed\xbf\xbf",
+	"\xf0\x80\x80\x80", "\xf0\x8f\xbf\xbf", "\xf0\x9f\x98", "\xf0\x9f", "\xf0", "\xf4\x90\x80\x80", "\xf5\x80\x80\x80", "\xf8\x88\x80\x80\x80", "\xfe", "\xff", "\xc3\x28", "\xe2\x28\xa1"}
+
+func randTag(r *hx.Rand, maxRunes int) string {
+	n := r.Intn(maxRunes + 1)
+	var b []byte
+	for i := 0; i < n; i++ {
+		switch r.Intn(10) {
+		case 0:
+			b = append(b, brokenUTF8[r.Intn(len(brokenUTF8))]...)
+		case 1:
+			b = append(b, byte(r.Intn(256)))
+		case 2:
+			b = utf8.AppendRune(b, rune(r.Intn(0x110000)))
+		case 3, 4:
+			b = append(b, biased[r.Intn(len(biased))])
+		default:
+			b = utf8.AppendRune(b, runePool[r.Intn(len(runePool))])
+		}
+	}
+	return string(b)
+}
+
+func genETag(emit func(string), r *hx.Rand, thorough bool) {
+	rt := func(tag string) {
+		emit(hx.L("etag-rt", hx.S(tag), printableHi(tag)))
+		emit(hx.L("utf8", hx.S(tag)))
+	}
+	e2e := func(tag string) { emit(hx.L("etag-e2e", hx.S(tag), printableHi(tag))) }
+	dec := func(text string) {
+		emit(hx.L("etag-dec", hx.S(text)))
+		emit(hx.L("unquote-dec", hx.S(text)))
+	}
+	// every single byte, every rune of the pool, every broken sequence, alone and between letters
+	rt("")
+	for b := 0; b < 256; b++ {
+		rt(string([]byte{byte(b)}))
+		rt("a" + string([]byte{byte(b)}) + "z")
+		e2e("a" + string([]byte{byte(b)}) + "z")
+	}
+	for _, ru := range runePool {
+		rt(string(ru))
+		rt("x" + string(ru) + string(ru) + "\\")
+		e2e(string(ru) + "-" + string(ru))
+		emit(hx.L("utf8-enc", hx.I(int64(ru))))
+	}
+	for _, ru := range []int64{0xd800, 0xdbff, 0xdc00, 0xdfff, 0x110000, 0x7fffffff} {
+		emit(hx.L("utf8-enc", hx.I(ru)))
+	}
+	for _, bs := range brokenUTF8 {
+		rt(bs)
+		rt("\"" + bs + "\\")
+		e2e("t" + bs)
+	}
+	// every pair of interesting bytes
+	inter := []byte("\"\\'`\n\r\t\x00\x7f a\x80\xbf\xc2\xc3\xe0\xed\xf0\xf4\xff")
+	for _, x := range inter {
+		for _, y := range inter {
+			rt(string([]byte{x, y}))
+		}
+	}
+	if thorough {
+		for x := 0; x < 256; x++ {
+			for y := 0; y < 256; y++ {
+				rt(string([]byte{byte(x), byte(y)}))
+			}
+		}
+	}
+	n := 6000
+	if thorough {
+		n = 200000
+	}
+	var samples []string
+	for i := 0; i < n; i++ {
+		var tag string
+		if r.Bool() {
+			tag = randTag(r, 8)
+		} else {
+			tag = randBytes(r, 12)
+		}
+		rt(tag)
+		if i%4 == 0 {
+			e2e(tag)
+		}
+		if i < 40 {
+			samples = append(samples, tag)
+		}
+	}
+	for i := 0; i < n/20; i++ {
+		emit(hx.L("utf8-enc", hx.I(int64(r.Intn(0x120000)))))
+	}
+
+	// decoders: every escape letter, the escape families, the three literal forms, near misses, random texts
+	for c := 0; c < 256; c++ {
+		ch := string([]byte{byte(c)})
+		dec("\"\\" + ch + "\"")
+		dec("\"\\" + ch + "41\"")
+		dec("\"" + ch + "\"")
+		dec("'" + ch + "'")
+		dec("'\\" + ch + "'")
+		dec("`" + ch + "`")
+		dec(ch + "a" + ch)
+		dec("\"a" + ch)
+		dec(ch + "a\"")
+	}
+	hand := []string{"", "\"", "\"\"", "''", "``", "'", "`", "\"\"\"", "\"a\"b\"", "\"a\\\"b\"", "\"a\\\"", "\"\\\\\"", "\"\\", "W/\"a\"", "a", "\"a", "a\"",
+		"\"\\x41\"", "\"\\x4\"", "\"\\x4g\"", "\"\\xFF\"", "\"\\xff\"", "\"\\u00e9\"", "\"\\u00E9\"", "\"\\ud800\"", "\"\\udfff\"", "\"\\ue000\"", "\"\\uffff\"", "\"\\u12\"",
+		"\"\\U0001f600\"", "\"\\U0010ffff\"", "\"\\U00110000\"", "\"\\Uffffffff\"", "\"\\U80000000\"", "\"\\U0001f60\"", "\"\\000\"", "\"\\377\"", "\"\\400\"", "\"\\08\"", "\"\\0\"",
+		"\"\\12\"", "\"\\1234\"", "\"\\'\"", "'\\\"'", "'\\''", "'\"'", "\"'\"", "'ab'", "'\\x41'", "'\\xff'", "'\\u00e9'", "'\xc3\xa9'", "'\xff'", "'\xc3'", "'\\377'", "'a'b'", "'a''",
+		"`a\rb`", "`\r`", "`a\nb`", "`a\\nb`", "`a`b`", "`a\"b`", "`\xff`", "\"a\nb\"", "\"a\rb\"", "\"a\tb\"", "\"\xff\"", "\"\xc3\xa9\"", "\"\xc3\"", "\"a\xffb\\n\"", "\"\xed\xa0\x80\"",
+		"\"a\" ", " \"a\"", "\"a\"\n", "\"\x00\"", "\"\x7f\"", "\"\\a\\b\\f\\n\\r\\t\\v\"", "\"\\e\"", "\"\\ \"", "\"\\\n\"", "\"abc\\", "\"abc\\\"", "\"\\u00e9\xff\""}
+	for _, h := range hand {
+		dec(h)
+	}
+	alts := []byte("\"\\'`\nx0u8a\xff\xc3")
+	for _, tag := range append(samples, "abc", "a\"b", "caf\xc3\xa9", "\x00\xff", "\u200b\U0001f600") {
+		q := strconv.Quote(tag)
+		dec(q)
+		for _, m := range nearMisses(q, alts) {
+			dec(m)
+		}
+	}
+	escapes := []string{"\\n", "\\x41", "\\xff", "\\u00e9", "\\ud800", "\\U0001f600", "\\101", "\\777", "\\\"", "\\'", "\\\\", "\\", "\\x", "\\u12", "\"", "'", "`", "\n", "\r", "a", "\xc3\xa9", "\xff", "\xe2\x82"}
+	for i := 0; i < n; i++ {
+		var body string
+		k := r.Intn(5)
+		for j := 0; j < k; j++ {
+			if r.Bool() {
+				body += r.Pick(escapes)
+			} else {
+				body += randTag(r, 2)
+			}
+		}
+		q := r.Pick([]string{"\"", "\"", "\"", "'", "`", ""})
+		q2 := q
+		if r.Intn(10) == 0 {
+			q2 = r.Pick([]string{"\"", "'", "`", ""})
+		}
+		dec(q + body + q2)
+	}
+}
+
 // ---------------------------------------------------------------- main
 
 func main() {
@@ -685,6 +943,8 @@ func main() {
 		genSmall(emit, rng, thorough)
 	case "date":
 		genDate(emit, rng, thorough)
+	case "etag":
+		genETag(emit, rng, thorough)
 	default:
 		fmt.Fprintln(os.Stderr, "c16: unknown stage", *stage)
 		os.Exit(2)
